@@ -444,6 +444,47 @@ pub fn exec(lineno: usize, l: &str) -> String {
                 _ => panic!("bad size"),
             }
         },
+        // projection for C02 / C09: values only (no reported hand)
+        "rankv" => {
+            let v = nums();
+            let n = v[0] as usize;
+            fn vals<H: HandRanker + HandValidator>(h: &H, o: &mut String) {
+                push_opt(o, guard(|| h.hand_rank_value()));
+                push_opt(o, guard(|| h.hand_rank().value));
+                push_opt(o, guard(|| h.hand_rank_value_and_hand().0));
+                push_opt(o, guard(|| h.hand_rank_value_validated()));
+                push_opt(o, guard(|| h.hand_rank_validated().value));
+            }
+            match n {
+                5 => vals(&Five::from(a5(&v[1..])), &mut o),
+                6 => vals(&Six::from(a6(&v[1..])), &mut o),
+                7 => vals(&Seven::from(a7(&v[1..])), &mut o),
+                _ => panic!("bad size"),
+            }
+        },
+        // projection for C04: validity and the validated entry points, for arbitrary words
+        "vrank" => {
+            let v = nums();
+            let n = v[0] as usize;
+            fn vv<H: HandRanker + HandValidator>(h: &H, o: &mut String) {
+                let valid = guard(|| h.is_valid());
+                push_opt(o, valid.map(b));
+                push_opt(o, guard(|| h.hand_rank_value_validated()));
+                push_opt(o, guard(|| hr_str(&h.hand_rank_validated())));
+                if valid == Some(true) {
+                    push_opt(o, guard(|| h.hand_rank_value()));
+                }
+            }
+            match n {
+                5 => {
+                    vv(&Five::from(a5(&v[1..])), &mut o);
+                    push_opt(&mut o, guard(|| evaluate::five_cards(a5(&v[1..]))));
+                },
+                6 => vv(&Six::from(a6(&v[1..])), &mut o),
+                7 => vv(&Seven::from(a7(&v[1..])), &mut o),
+                _ => panic!("bad size"),
+            }
+        },
         // projection for C05: for every ranking entry point only "returned normally?"; for a
         // five-slot hand that contains a blank also the value / name / class it was given
         "rankp" => {
